@@ -1,6 +1,7 @@
 import GV.Drv.Eval
 import GV.Eval.RefStmt
 import GV.Eval.FactsParams
+import GV.Eval.GrammarTab
 namespace GV.Drv
 open Lean GV.Eval
 
@@ -22,53 +23,70 @@ def parseKey (j : Json) : Key :=
 
 def parseAOpSym (s : String) : AOp := match s with | "+" => .add | "-" => .sub | "*" => .mul | _ => .div
 
+/-- the tree stands for a token string the grammar model rejects -/
+def rejectRE : RE := .var 0 "#reject#"
+
 mutual
-  partial def parseRE (hdr : Json) (j : Json) : RE :=
+  partial def parseTok (T : PrecTab) (hdr : Json) (j : Json) : Tok :=
+    match jStr j "t" with
+    | "atom" => .atom (parseRE T hdr (jObj j "e"))
+    | "ar" => .ar (parseAOpSym (jStr j "sym"))
+    | "cmp" => .cmp ((parseCOp (jStr j "sym")).getD .eq)
+    | "log" => .log (if jStr j "sym" == "&&" then .and else .or)
+    | "not" => .not (jInt j "line").toNat
+    | "lp" => .lp (jInt j "line").toNat
+    | _ => .rp
+  partial def parseRE (T : PrecTab) (hdr : Json) (j : Json) : RE :=
     let l := (jInt j "line").toNat
     match jStr j "op" with
+    | "toks" =>
+      -- a token string: read by the parser model with the precedence table `T`
+      (match parseTop T ((jArr j "toks").map (parseTok T hdr)) with
+       | some t => t
+       | none => rejectRE)
     | "lit" => .lit l (parseVal (jObj j "val"))
     | "at" => .lit l (atValue hdr (jStr j "sym"))
     | "var" => .var l (jStr j "sym")
     | "idx" => .idx l (jStr j "sym") (parseKey (jObj j "key"))
-    | "call" => .call l (match jStr j "kind" with | "method" => .method | "three" => .three | _ => .func) (jStr j "sym") (parseREs hdr (jArr j "args"))
-    | "ar" => .ar l (parseAOpSym (jStr j "sym")) (parseRE hdr (jObj j "l")) (parseRE hdr (jObj j "r"))
-    | "cmp" => .cmp l ((parseCOp (jStr j "sym")).getD .eq) (parseRE hdr (jObj j "l")) (parseRE hdr (jObj j "r"))
-    | "log" => .log l (if jStr j "sym" == "&&" then .and else .or) (parseRE hdr (jObj j "l")) (parseRE hdr (jObj j "r"))
-    | "not" => .not l (parseRE hdr (jObj j "l"))
-    | _ => .paren l (parseRE hdr (jObj j "l"))
-  partial def parseREs (hdr : Json) (js : List Json) : REs :=
-    js.foldr (fun a acc => REs.cons (parseRE hdr a) acc) REs.nil
+    | "call" => .call l (match jStr j "kind" with | "method" => .method | "three" => .three | _ => .func) (jStr j "sym") (parseREs T hdr (jArr j "args"))
+    | "ar" => .ar l (parseAOpSym (jStr j "sym")) (parseRE T hdr (jObj j "l")) (parseRE T hdr (jObj j "r"))
+    | "cmp" => .cmp l ((parseCOp (jStr j "sym")).getD .eq) (parseRE T hdr (jObj j "l")) (parseRE T hdr (jObj j "r"))
+    | "log" => .log l (if jStr j "sym" == "&&" then .and else .or) (parseRE T hdr (jObj j "l")) (parseRE T hdr (jObj j "r"))
+    | "not" => .not l (parseRE T hdr (jObj j "l"))
+    | _ => .paren l (parseRE T hdr (jObj j "l"))
+  partial def parseREs (T : PrecTab) (hdr : Json) (js : List Json) : REs :=
+    js.foldr (fun a acc => REs.cons (parseRE T hdr a) acc) REs.nil
 end
 
-def parseRAssign (hdr : Json) (j : Json) : RAssign :=
+def parseRAssign (T : PrecTab) (hdr : Json) (j : Json) : RAssign :=
   let t := jObj j "tgt"
   let tgt : RTarget := if jStr t "op" == "idx" then .idx (jInt t "line").toNat (jStr t "sym") (parseKey (jObj t "key"))
     else .var (jStr t "sym")
   { line := (jInt j "line").toNat, tgt := tgt,
     op := (match jStr j "sym" with | "+=" => .add | "-=" => .sub | "*=" => .mul | "/=" => .div | _ => .set),
-    e := parseRE hdr (jObj j "e") }
+    e := parseRE T hdr (jObj j "e") }
 
 mutual
-  partial def parseRS (hdr : Json) (j : Json) : RS :=
+  partial def parseRS (T : PrecTab) (hdr : Json) (j : Json) : RS :=
     match jStr j "op" with
-    | "assign" => .assign (parseRAssign hdr j)
-    | "call" => .call (parseRE hdr (jObj j "e"))
+    | "assign" => .assign (parseRAssign T hdr j)
+    | "call" => .call (parseRE T hdr (jObj j "e"))
     | "if" =>
-      let els : RElifs := if isNull (jObj j "else") then .nil else .els (parseRBlock hdr (jObj j "else"))
+      let els : RElifs := if isNull (jObj j "else") then .nil else .els (parseRBlock T hdr (jObj j "else"))
       let chain := (jArr j "elifs").foldr
-        (fun e acc => RElifs.cons (parseRE hdr (jObj e "cond")) (parseRBlock hdr (jObj e "body")) acc) els
-      .ifs (parseRE hdr (jObj j "e")) (parseRBlock hdr (jObj j "body")) chain
-    | "for" => .for (jInt j "line").toNat (parseRAssign hdr (jObj j "init")) (parseRAssign hdr (jObj j "step"))
-        (parseRE hdr (jObj j "e")) (parseRBlock hdr (jObj j "body"))
-    | "forRange" => .forRange (jInt j "line").toNat (jStr j "sym") (jStr j "coll") (parseRBlock hdr (jObj j "body"))
+        (fun e acc => RElifs.cons (parseRE T hdr (jObj e "cond")) (parseRBlock T hdr (jObj e "body")) acc) els
+      .ifs (parseRE T hdr (jObj j "e")) (parseRBlock T hdr (jObj j "body")) chain
+    | "for" => .for (jInt j "line").toNat (parseRAssign T hdr (jObj j "init")) (parseRAssign T hdr (jObj j "step"))
+        (parseRE T hdr (jObj j "e")) (parseRBlock T hdr (jObj j "body"))
+    | "forRange" => .forRange (jInt j "line").toNat (jStr j "sym") (jStr j "coll") (parseRBlock T hdr (jObj j "body"))
     | "break" => .brk
     | "continue" => .cont
     | _ => .conc ((jArr j "items").map (fun it =>
-        if jStr it "op" == "assign" then RConcItem.assign (parseRAssign hdr it) else RConcItem.call (parseRE hdr (jObj it "e"))))
-  partial def parseRBlock (hdr : Json) (j : Json) : RBlock :=
-    let stmts := (jArr j "stmts").foldr (fun s acc => RSList.cons (parseRS hdr s) acc) RSList.nil
+        if jStr it "op" == "assign" then RConcItem.assign (parseRAssign T hdr it) else RConcItem.call (parseRE T hdr (jObj it "e"))))
+  partial def parseRBlock (T : PrecTab) (hdr : Json) (j : Json) : RBlock :=
+    let stmts := (jArr j "stmts").foldr (fun s acc => RSList.cons (parseRS T hdr s) acc) RSList.nil
     let ret : RRet := if !jBool j "hasRet" then .none
-      else if isNull (jObj j "ret") then .bare else .expr (parseRE hdr (jObj j "ret"))
+      else if isNull (jObj j "ret") then .bare else .expr (parseRE T hdr (jObj j "ret"))
     .mk stmts ret
 end
 
@@ -125,6 +143,19 @@ mutual
     | .nil => "nil" | .els b => s!"(else {showOStmts b})" | .cons c b rest => s!"(elif {showExpr c} {showOStmts b} {showElifs rest})"
 end
 
+/-- does the body contain a token string that the grammar model (reference table) rejects? -/
+partial def hasReject (hdr : Json) (j : Json) : Bool :=
+  match j with
+  | .arr xs => xs.any (hasReject hdr)
+  | .obj _ =>
+    if jStr j "op" == "toks" then
+      (parseTop GrammarIR.refTab ((jArr j "toks").map (parseTok GrammarIR.refTab hdr))).isNone ||
+        (jArr j "toks").any (fun t => hasReject hdr (jObj t "e"))
+    else
+      ["l", "r", "args", "e", "tgt", "init", "step", "body", "elifs", "else", "items", "stmts", "ret", "cond"].any
+        (fun k => hasReject hdr (jObj j k))
+  | _ => false
+
 def refParams (P : Params) : Params := { P with arith := refArith, cmp := refCmp }
 
 def ruleOutJson (res : RuleOut) : Json :=
@@ -147,21 +178,26 @@ def evalCaseFull (j : Json) : Json :=
   let step := fun (acc : Env × Env × List Json × List Json × List Json) (r : Json) =>
     let (menv, senv, mouts, souts, shapes) := acc
     let ast := jObj r "ast"
-    let body := parseRBlock (jObj r "hdr") (jObj r "body")
+    -- specification side: token strings are read with the precedence table the language asks for;
+    -- model side (listener-shape comparison): with the table of the parser as it is generated now
+    let body := parseRBlock GrammarIR.refTab (jObj r "hdr") (jObj r "body")
+    let bodyM := parseRBlock genTab (jObj r "hdr") (jObj r "body")
+    let rej := Json.bool (hasReject (jObj r "hdr") (jObj r "body"))
     let sres := denoteRule SP { senv with trace := [] } body
     let senv' := { sres.env with vars := [] }
-    if isNull ast then (menv, senv', mouts ++ [Json.mkObj [("skip", Json.bool true)]], souts ++ [ruleOutJson sres], shapes ++ [Json.null])
+    if isNull ast then (menv, senv', mouts ++ [Json.mkObj [("skip", Json.bool true)]], souts ++ [ruleOutJson sres],
+                        shapes ++ [Json.mkObj [("noast", Json.bool true), ("reject", rej)]])
     else
       let stmts := parseStmts (jObj (jObj ast "RuleContent") "Statements")
       let mres := ruleExecute P { menv with trace := [] } stmts
-      let want := showStmts (lowerB body)
+      let want := showStmts (lowerB bodyM)
       let got := showStmts stmts
       let shape := if want == got then Json.bool true else Json.mkObj [("want", Json.str want), ("got", Json.str got)]
       let wf := Json.bool body.WF
       -- the hypotheses of the end-to-end theorem, checked on every case
       let wk := Json.bool (menv.wkb && senv.wkb && body.LitWK)
       ({ mres.env with vars := [] }, senv', mouts ++ [ruleOutJson mres], souts ++ [ruleOutJson sres],
-       shapes ++ [Json.mkObj [("shape", shape), ("wf", wf), ("wk", wk)]])
+       shapes ++ [Json.mkObj [("shape", shape), ("wf", wf), ("wk", wk), ("reject", rej)]])
   let (_, _, mouts, souts, shapes) := (jArr j "rules").foldl step (env0, env0, [], [], [])
   Json.mkObj [("i", jObj j "i"), ("model", Json.arr mouts.toArray), ("spec", Json.arr souts.toArray),
               ("shapes", Json.arr shapes.toArray)]
